@@ -3,6 +3,7 @@ delegated to the real jax.tree_util (proxies are leaves to it), one level at a t
 from __future__ import annotations
 
 import types
+from .ns import StubNS
 
 import jax.tree_util as real
 
@@ -37,7 +38,7 @@ def tree_map(f, tree, *rest, is_leaf=None):
 
 
 def namespace():
-    ns = types.SimpleNamespace()
+    ns = StubNS()
     for k in dir(real):
         if not k.startswith("_"):
             setattr(ns, k, getattr(real, k))
